@@ -183,10 +183,10 @@ mod dictionary {
     impl Codec for DictionaryCodec {
         /// Decode a sequence of byte slices.
         fn decode<'a>(&'a self, bytes: &'a [u8]) -> &'a [u8] {
-            if let Some(bytes) = self.decode.get(bytes[0].into()) {
-                bytes
-            } else {
-                bytes
+            // The empty string is stored as the empty string: it has no leading tag byte.
+            match bytes.first() {
+                Some(tag) => self.decode.get((*tag).into()).unwrap_or(bytes),
+                None => bytes,
             }
         }
 
@@ -208,9 +208,10 @@ mod dictionary {
             };
             // Stats stuff.
             self.stats.0.insert(bytes.to_owned());
-            let tag = bytes[0];
-            let tag_idx: usize = (tag % 4).into();
-            self.stats.1[tag_idx] |= 1 << (tag >> 2);
+            if let Some(&tag) = bytes.first() {
+                let tag_idx: usize = (tag % 4).into();
+                self.stats.1[tag_idx] |= 1 << (tag >> 2);
+            }
 
             index
         }
@@ -222,7 +223,8 @@ mod dictionary {
             for (thing, count) in stats.clone().flat_map(|stats| stats.stats.0.clone().done()) {
                 mg.update(thing, count);
             }
-            let mut mg = mg.done().into_iter();
+            // The empty string cannot be a dictionary entry: `BytesMap` treats it as absent.
+            let mut mg = mg.done().into_iter().filter(|(bytes, _)| !bytes.is_empty());
             // Establish encoding and decoding rules.
             let mut encode = BTreeMap::new();
             let mut decode = BytesMap::default();
